@@ -123,7 +123,7 @@ theorem copyHotCold_sim (n : Nat) (x : Exec) :
     · simp [absAtomic, absOf]
     · -- chunks
       generalize hx1 : ({ st := { hot := x.st.hot, cold := x.st.cold, part := some 0, tier := x.st.tier, pend := x.st.pend, recent := x.st.recent },
-                          orc := r, logged := x.logged } : Exec) = x1
+                          orc := r, logged := x.logged, inval := x.inval } : Exec) = x1
       have habs1 : absOf x1.st = absOf x.st := by subst hx1; rfl
       have hc := copyChunks_abs n 0 x1
       cases hcc : copyChunks n 0 x1 with
